@@ -210,8 +210,10 @@ def run_case(spec):
     est = zoo.make('LMNN', ds, **dict(over, max_iter=25, learn_rate=1e-4, verbose=True))
     y_first = y
     y_other = np.roll(y, 3)            # the same points with OTHER labels, fitted on the SAME object afterwards
-    for fit_no, y in enumerate((y_first, y_other)):
-        tr = [lab] + (['refit_other_labels'] if fit_no else [])
+    # third fit: a step size far above the stable one (the backtracking must halve it > 20 times before a step is accepted)
+    for fit_no, (y, lr) in enumerate(((y_first, 1e-4), (y_other, 1e-4), (y_first, 1e6))):
+        tr = [lab] + ([] if fit_no == 0 else (['refit_other_labels'] if fit_no == 1 else ['learn_rate=1e6']))
+        est.set_params(learn_rate=lr)
         del recs[:]
         if np.bincount(np.unique(y, return_inverse=True)[1]).min() <= kk:
             continue
